@@ -1729,6 +1729,31 @@ func (self *Fork) expandForkSplitInnerPart(
 			return nil, fmt.Errorf("%s is not ready", exp.GoString())
 		}
 		return getElement(obj, index)
+	case *syntax.MergeExp:
+		// The merged output of a mapped call, which the enclosing call
+		// is mapped over: its element for the index is the output of that
+		// call's fork with the same index.
+		if ref, ok := exp.Value.(*syntax.RefExp); ok && exp.GetCall() != nil {
+			call := exp.GetCall()
+			id := make(ForkId, len(self.forkId), len(self.forkId)+1)
+			copy(id, self.forkId)
+			id = append(id, &ForkSourcePart{
+				Id: index,
+				Split: &syntax.SplitExp{
+					Value:  &syntax.MergeExp{MergeOver: call},
+					Call:   call,
+					Source: call,
+				},
+			})
+			ready, obj, err := self.node.top.resolveRef(ref, nil, id, readSizeLimit)
+			if err != nil {
+				return nil, err
+			}
+			if !ready {
+				return nil, fmt.Errorf("%s is not ready", exp.GoString())
+			}
+			return obj, nil
+		}
 	}
 	return nil, fmt.Errorf(
 		"invalid source %s for undetermined %s (computing forks for %s)",
